@@ -163,6 +163,7 @@ fn line_of_error(msg: &str) -> Option<usize> {
     digits.parse().ok()
 }
 
+#[derive(Clone, Copy)]
 pub struct C19;
 
 impl C19 {
